@@ -3,8 +3,8 @@
     ([h_to_implicit]) gives the side of the ITS before the stage, exactly.  With C04_identity_glue_default this takes the
     default mode to the end of its_list.  Uses proof/C03_ExplicitH.v / C03_ExplicitShape.v (structure of [explicit_h]) read-only. *)
 From Coq Require Import List NArith ZArith Bool Arith Lia.
-From SK Require Import lib.Tok lib.LGraph model.C03_Model model.C04_Model proof.C03_Proof proof.C03_Glue proof.C03_Backward
-                       proof.C03_StripCounts proof.C03_ExplicitH proof.C03_ExplicitShape proof.C04_Glue proof.C04_Template proof.C04_Fold proof.C04_Default.
+From SK Require Import lib.Tok lib.LGraph model.C03_Model model.C03_Order model.C04_Model proof.C03_Proof proof.C03_Glue proof.C03_Backward
+                       proof.C03_StripCounts proof.C03_ExplicitH proof.C03_ExplicitShape proof.C03_Spec proof.C03_Ord proof.C04_Glue proof.C04_Template proof.C04_Fold proof.C04_Default.
 Import ListNotations.
 Local Open Scope Z_scope.
 
@@ -219,13 +219,16 @@ Qed.
 Section Explicit.
   Variables (T T' : its) (ms : list (N * N)).
   Hypothesis Hnd : NoDup (node_ids T).
-  Hypothesis HE : explicit_h T = Some (T', ms).
+  (** what _explicit_h does, whatever ORDER it visits the atoms of a hydrogen-transfer group in (the code iterates over a Python
+      set): [ms] are migrations between atoms of T, one new hydrogen atom with its two bonds is appended per migration, donor and
+      recipient counts are lowered.  Both [explicit_h] (sorted order) and C03's [explicit_h_ord ord] have this shape. *)
+  Hypothesis Hat : forall sd, In sd ms -> has_node T (fst sd) = true /\ has_node T (snd sd) = true.
+  Hypothesis Hshape : exists T1 h1, fold_left addH_step ms (T, N.succ (max_id T)) = (T1, h1) /\ T' = fold_left dec_step ms T1.
   Let h0 := N.succ (max_id T).
 
   Lemma mig_atoms sd : In sd ms -> In (fst sd) (node_ids T) /\ In (snd sd) (node_ids T).
   Proof.
-    intros I. destruct (explicit_h_unfold T T' ms HE) as (Hm & _).
-    destruct (migrations_are_atoms T ms Hm sd I) as [H1 H2]. apply has_node_label in H1, H2. destruct H1 as [a Ha], H2 as [b Hb].
+    intros I. destruct (Hat sd I) as [H1 H2]. apply has_node_label in H1, H2. destruct H1 as [a Ha], H2 as [b Hb].
     split; [exact (label_some_in T _ a Ha)|exact (label_some_in T _ b Hb)].
   Qed.
   Lemma fresh_not_mig k : (h0 <= k)%N -> ~ In k (map fst ms) /\ ~ In k (map snd ms).
@@ -237,13 +240,13 @@ Section Explicit.
 
   Lemma explicit_edges : gedges T' = gedges T ++ new_edges h0 ms.
   Proof.
-    destruct (explicit_h_unfold T T' ms HE) as (_ & T1 & h1 & E1 & ET). rewrite ET, dec_fold_edges.
+    destruct Hshape as (T1 & h1 & E1 & ET). rewrite ET, dec_fold_edges.
     exact (proj2 (addH_fold_lists ms _ _ _ _ E1)).
   Qed.
   Lemma explicit_nodes :
     gnodes T' = map (fun p => (fst p, decs (occ (fst p) (map fst ms)) (occ (fst p) (map snd ms)) (snd p))) (gnodes T) ++ new_nodes h0 ms.
   Proof.
-    destruct (explicit_h_unfold T T' ms HE) as (_ & T1 & h1 & E1 & ET). rewrite ET, dec_fold_gnodes.
+    destruct Hshape as (T1 & h1 & E1 & ET). rewrite ET, dec_fold_gnodes.
     rewrite (proj1 (addH_fold_lists ms _ _ _ _ E1)), map_app. f_equal.
     apply map_id_in. intros [k a] I. destruct (new_nodes_ge _ _ _ _ I) as [Hk ->]. cbn [fst snd].
     destruct (fresh_not_mig k Hk) as [N1 N2]. rewrite (occ_notin _ _ N1), (occ_notin _ _ N2). reflexivity.
@@ -420,14 +423,15 @@ Proof.
     destruct Hp as [Hp|Hp]; apply andb_prop in Hp; destruct Hp as [P1 P2]; apply N.eqb_eq in P1; apply N.eqb_eq in P2; subst; split; apply Hin; assumption.
 Qed.
 
-Theorem explicit_end (T T' : its) (ms : list (N * N)) (A B : hostg) :
+Theorem explicit_end_shape (T T' : its) (ms : list (N * N)) (A B : hostg) :
   wf_hostb A = true -> wf_hostb B = true -> foldable A -> foldable B -> closed A -> closed B ->
   NoDup (node_ids T) ->
   regen_exact T (h_to_implicit_host A) (h_to_implicit_host B) = true ->
-  explicit_h T = Some (T', ms) ->
+  (forall sd, In sd ms -> has_node T (fst sd) = true /\ has_node T (snd sd) = true) ->
+  (exists T1 h1, fold_left addH_step ms (T, N.succ (max_id T)) = (T1, h1) /\ T' = fold_left dec_step ms T1) ->
   regen_folded T' A B = true.
 Proof.
-  intros HA HB FA FB CA CB Hnd RE HE.
+  intros HA HB FA FB CA CB Hnd RE Hat Hsh.
   destruct (fold_host_spec A (wf_host_nodup A HA) FA) as (_ & _ & FAA).
   destruct (fold_host_spec B (wf_host_nodup B HB) FB) as (_ & _ & FBB).
   pose proof (folded_closed A _ _ FAA CA) as CA'. pose proof (folded_closed B _ _ FBB CB) as CB'.
@@ -437,11 +441,37 @@ Proof.
   destruct (side_facts iH eH T _ Hnd CB' NB' RR) as [NR CR].
   unfold regen_folded, its_decompose. apply andb_true_intro; split.
   - rewrite (folded_eqb_noH _ _ (dec_side iG eG T) (molg_of (h_to_implicit_host A))
-               (explicit_left T T' ms HE NL CL) (fold_molg_of A)); [exact RL| |].
+               (explicit_left T T' ms Hat Hsh NL CL) (fold_molg_of A)); [exact RL| |].
     + intros k a I. rewrite dec_gnodes in I. apply in_map_iff in I. destruct I as ([k' a'] & E & I). inversion E; subst. exact (NL k a' I).
     + intros k a I. unfold molg_of in I; cbn [gnodes] in I. apply in_map_iff in I. destruct I as ([k' a'] & E & I). inversion E; subst. exact (NA' k a' I).
   - rewrite (folded_eqb_noH _ _ (dec_side iH eH T) (molg_of (h_to_implicit_host B))
-               (explicit_right T T' ms HE NR CR) (fold_molg_of B)); [exact RR| |].
+               (explicit_right T T' ms Hat Hsh NR CR) (fold_molg_of B)); [exact RR| |].
     + intros k a I. rewrite dec_gnodes in I. apply in_map_iff in I. destruct I as ([k' a'] & E & I). inversion E; subst. exact (NR k a' I).
     + intros k a I. unfold molg_of in I; cbn [gnodes] in I. apply in_map_iff in I. destruct I as ([k' a'] & E & I). inversion E; subst. exact (NB' k a' I).
+Qed.
+
+(** the sorted visiting order of the model ... *)
+Theorem explicit_end (T T' : its) (ms : list (N * N)) (A B : hostg) :
+  wf_hostb A = true -> wf_hostb B = true -> foldable A -> foldable B -> closed A -> closed B ->
+  NoDup (node_ids T) ->
+  regen_exact T (h_to_implicit_host A) (h_to_implicit_host B) = true ->
+  explicit_h T = Some (T', ms) ->
+  regen_folded T' A B = true.
+Proof.
+  intros HA HB FA FB CA CB Hnd RE HE. destruct (explicit_h_unfold T T' ms HE) as (Hm & Hsh).
+  exact (explicit_end_shape T T' ms A B HA HB FA FB CA CB Hnd RE (migrations_are_atoms T ms Hm) Hsh).
+Qed.
+
+(** ... and EVERY visiting order (C03's [explicit_h_ord ord]: [ord] lists the atoms of a group in any duplicate-free order, as the
+    iteration over a Python set does) *)
+Theorem explicit_end_ord (ord : list N -> list N) (T T' : its) (ms : list (N * N)) (A B : hostg) :
+  (forall l x, In x (ord l) <-> In x l) -> (forall l, NoDup l -> NoDup (ord l)) ->
+  wf_hostb A = true -> wf_hostb B = true -> foldable A -> foldable B -> closed A -> closed B ->
+  NoDup (node_ids T) ->
+  regen_exact T (h_to_implicit_host A) (h_to_implicit_host B) = true ->
+  explicit_h_ord ord T = Some (T', ms) ->
+  regen_folded T' A B = true.
+Proof.
+  intros O1 O2 HA HB FA FB CA CB Hnd RE HE. destruct (explicit_h_ord_unfold ord T T' ms HE) as (Hm & Hsh).
+  exact (explicit_end_shape T T' ms A B HA HB FA FB CA CB Hnd RE (migrations_are_atoms_ord ord O1 T ms Hm) Hsh).
 Qed.
